@@ -26,6 +26,7 @@ ATTR = {"a": 0, "b": 1, "n": 2}
 ATTR_NAME = {v: k for k, v in ATTR.items()}
 VAR_NAME = {1: "x", 2: "y"}
 OBJ0 = 100
+NEST = 99        # in the outer call the nested argument g(...) is written as the variable 99 (PredCase.nest_var)
 
 
 # ------------------------------------------------------------------ case -> Gallina
@@ -51,6 +52,15 @@ def case_term(d) -> str:
         "; ".join(arg_term(a) for a in d["pos"]),
         "; ".join(f"({core.zlit(k)}, {arg_term(a)})" for k, a in d["kw"]),
         core.zlist(d["pre"]), core.zlist(d["sel"]), doms, "; ".join(attrs), core.zlist(d["tbl"]))
+
+
+def ncase_term(d) -> str:
+    i = d["inner"]
+    return ("{| n_outer := %s; n_inner_params := %s; n_inner_defaults := [%s]; n_inner_pos := [%s]; n_inner_kw := [%s]; "
+            "n_inner_tbl := %s; n_neg := %s |}") % (
+        case_term(d), core.zlist(i["params"]), "; ".join(f"({p}, {core.zlit(v)})" for p, v in i["defaults"]),
+        "; ".join(arg_term(a) for a in i["pos"]), "; ".join(f"({core.zlit(k)}, {arg_term(a)})" for k, a in i["kw"]),
+        core.zlist(i["tbl"]), "true" if d.get("neg") else "false")
 
 
 # ------------------------------------------------------------------ implementation side
@@ -93,37 +103,37 @@ def _run_impl(d) -> Any:
     objs = [Obj(i, a, b) for i, (a, b, n) in enumerate(d["objs"])]
     for o, (_, _, n) in zip(objs, d["objs"]):
         o.n = objs[n]
-    params = d["params"]
-    defaults = dict((p, v) for p, v in d["defaults"])
-    tbl = d["tbl"]
-    log: List[List[int]] = []
-
-    def body(vals):
-        seen = [_code(v) for v in vals]
-        log.append(seen)
-        code = 0
-        for v in reversed(seen):
-            code = (v % 3) + 3 * code
-        return tbl[code % len(tbl)]
-
     def pyval(v):
         return objs[v - OBJ0] if v >= OBJ0 else v
 
-    if d["pred"]:
-        fields = []
-        for p in params:
-            if p in defaults:
-                fields.append((pname(p), Any, dataclasses.field(default=pyval(defaults[p]))))
-            else:
-                fields.append((pname(p), Any))
-        callee = dataclasses.make_dataclass(
-            "Pr", fields, bases=(Predicate,), eq=False,
-            namespace={"__call__": lambda self: body([getattr(self, pname(p)) for p in params])})
-    else:
+    def mk_callee(pred, params, defaults_list, tbl, log, cname):
+        defaults = dict((p, v) for p, v in defaults_list)
+
+        def body(vals):
+            seen = [_code(v) for v in vals]
+            log.append(seen)
+            code = 0
+            for v in reversed(seen):
+                code = (v % 3) + 3 * code
+            return tbl[code % len(tbl)]
+
+        if pred:
+            fields = []
+            for p in params:
+                if p in defaults:
+                    fields.append((pname(p), Any, dataclasses.field(default=pyval(defaults[p]))))
+                else:
+                    fields.append((pname(p), Any))
+            return dataclasses.make_dataclass(
+                cname, fields, bases=(Predicate,), eq=False,
+                namespace={"__call__": lambda self: body([getattr(self, pname(p)) for p in params])})
         sig = ", ".join(pname(p) + (f"=_d[{p}]" if p in defaults else "") for p in params)
         ns = {"_body": body, "_d": {p: pyval(v) for p, v in defaults.items()}}
-        exec(f"def fn({sig}):\n    return _body([{', '.join(pname(p) for p in params)}])\n", ns)
-        callee = symbolic_function(ns["fn"])
+        exec(f"def {cname.lower()}({sig}):\n    return _body([{', '.join(pname(p) for p in params)}])\n", ns)
+        return symbolic_function(ns[cname.lower()])
+
+    log: List[List[int]] = []
+    callee = mk_callee(d["pred"], d["params"], d["defaults"], d["tbl"], log, "Pr" if d["pred"] else "Fn")
 
     variables = {}
     for k, dom in d["doms"].items():
@@ -136,6 +146,13 @@ def _run_impl(d) -> Any:
             return variables[a[1]]
         return getattr(build(a[1]), ATTR_NAME[a[2]])
 
+    inner = d.get("inner")
+    ilog: List[List[int]] = []
+    if inner:
+        icallee = mk_callee(inner["pred"], inner["params"], inner["defaults"], inner["tbl"], ilog, "Ip" if inner["pred"] else "Ig")
+        variables[NEST] = icallee(*[build(a) for a in inner["pos"]], **{pname(k): build(a) for k, a in inner["kw"]})
+        if not isinstance(variables[NEST], SymbolicExpression) or ilog:
+            return [98, len(ilog)]
     pos = [build(a) for a in d["pos"]]
     kw = {pname(k): build(a) for k, a in d["kw"]}
     try:
@@ -148,7 +165,10 @@ def _run_impl(d) -> Any:
                 return [0, -2, [list(c) for c in log]]   # a predicate must not run before it is called
             c = c()
         return [0, _enc(c), [list(c) for c in log]]
-    at_construction = len(log)
+    at_construction = len(log) + len(ilog)
+    if d.get("neg"):
+        from krrood.entity_query_language.entity import not_
+        c = not_(c)
     conds = [getattr(variables[x], "a") >= 0 for x in d["pre"]] + [c]
     sel = [variables[x] for x in d["sel"]]
     q = an(entity(sel[0], *conds)) if len(sel) == 1 else an(set_of(sel, *conds))
@@ -159,6 +179,8 @@ def _run_impl(d) -> Any:
             rows.append([_code(r)] if len(sel) == 1 else [_code(r[v]) for v in sel])
     except TypeError:
         err = -1
+    if inner:
+        return [1, at_construction if at_construction else err, [list(c) for c in ilog], [list(c) for c in log], rows]
     return [1, at_construction if at_construction else err, [list(c) for c in log], rows]
 
 
@@ -284,6 +306,56 @@ def gen_cases(tier: str, seed: int) -> List[dict]:
     return out
 
 
+def gen_nested(tier: str, seed: int) -> List[dict]:
+    """f(g(x)), Pred(h(x), y), ...: one written argument of a well-formed outer call is replaced by a symbolic inner call
+    whose body returns 0 / 1 / 2 (0 = a falsy non-bool result); optionally under not_.  Outside the model: implementation vs Spec."""
+    rng = core.Rng(seed).fork(77)
+    out = []
+    nmax = 3
+    for rep_ in range(1 if tier == "quick" else 4):
+        for pred in (False, True):
+            for ipred in (False, True):
+                for n in range(1, nmax + 1):
+                    for ndef in range(0, n + 1):
+                        for k, kws in call_shapes(n, ndef):
+                            written = k + len(kws)
+                            if written == 0:
+                                continue
+                            for where in range(written):
+                                symmask = rng.randint(0, (1 << written) - 1)
+                                d = fill(rng, pred, n, ndef, k, list(kws), symmask, "shared" if rng.chance(0.4) else "distinct")
+                                m = rng.randint(1, 2)
+                                mdef = rng.randint(0, m)
+                                ik, ikws = rng.choice(list(call_shapes(m, mdef)))
+                                iw = ik + len(ikws)
+                                if iw == 0:
+                                    ik, ikws, iw = 1, [p for p in ikws], 1
+                                imask = rng.randint(1, (1 << iw) - 1)
+                                owner = rng.randint(1, 2)
+                                iargs = [sym_arg(rng, owner if rng.chance(0.7) else 3 - owner) if imask >> j & 1 else lit_arg(rng, len(d["objs"]))
+                                         for j in range(iw)]
+                                itbl = [rng.choice([0, 0, 1, 2]) for _ in range(3 ** m)]
+                                if 0 not in itbl:
+                                    itbl[0] = 0
+                                d["inner"] = {"pred": ipred, "params": list(range(1, m + 1)),
+                                              "defaults": [[p, rng.randint(0, 2)] for p in range(m - mdef + 1, m + 1)],
+                                              "pos": iargs[:ik], "kw": [[p, a] for p, a in zip(ikws, iargs[ik:])], "tbl": itbl}
+                                args = d["pos"] + [a for _, a in d["kw"]]
+                                args[where] = ["var", NEST]
+                                d["pos"] = args[:len(d["pos"])]
+                                d["kw"] = [[p, a] for (p, _), a in zip(d["kw"], args[len(d["pos"]):])]
+                                d["neg"] = rng.chance(0.25)
+                                used = sorted(({v for a in args for v in arg_vars(a)} - {NEST}) | {v for a in iargs for v in arg_vars(a)} | set(d["pre"]))
+                                _, doms = gen_world(rng, 2)
+                                doms = {x: [i for i in dom if i < len(d["objs"])] or [0] for x, dom in doms.items()}
+                                d["doms"] = {str(v): d["doms"].get(str(v), doms[str(v)]) for v in used}
+                                d["sel"] = used if (len(used) < 2 or rng.chance(0.8)) else [rng.choice(used)]
+                                if d["neg"]:
+                                    d["pre"] = sorted(set(d["pre"]) | set(used))   # keep negation away from open variables (C01's concern)
+                                out.append(d)
+    return out
+
+
 def gen_malformed(tier: str, seed: int) -> List[dict]:
     """calls Python rejects: too many positionals, a parameter given positionally and by keyword, an unknown keyword,
     a missing required parameter.  The property is silent here; the model (translated merge + hand evaluation) is
@@ -392,12 +464,15 @@ def run(tier: str, seed: int, replay=None) -> int:
         "Python's own parameter binding (Spec part 1, python_bind/call_ok) is stated, and compared with CPython on the concrete calls",
     ]
     rep.assume = ["the user's function / __call__ is pure and depends only on its parameters",
+                  "nested calls (an argument that is itself a symbolic call) are NOT in the model or the theorems; they are compared with the Spec "
+                  "(Eql/PredCase.v spec_nested: the concrete composition per candidate binding) on the generated cases only",
                   "written arguments are ordinary objects, query variables or attribute chains over one variable (other expression kinds are C01's evaluator)",
                   "domains are non-empty explicit lists of distinct truthy objects (empty / falsy / repeated domain elements are C01 / C03 classes)"]
     rep.rule = ("exhaustive over path (function / Predicate subclass) x arity 1..N x number of defaults x number of positionals x which defaulted "
                 "parameters are omitted x keyword order (natural / reversed) x every variable/concrete split (quick N=3, thorough N=4); per combination one "
                 "case with each symbolic argument over its own or an already bound variable and, for >= 2 symbolic arguments, one where they share an open variable; "
-                "worlds, attribute chains, defaults and the body's truth table drawn from VERIF_SEED; plus a malformed stream. "
+                "worlds, attribute chains, defaults and the body's truth table drawn from VERIF_SEED; plus a malformed stream (impl vs model only) and a "
+                "nested-call stream f(g(x)), Pred(h(x), y), optionally under not_, inner results 0/1/2 with 0 falsy (outside the model: impl vs Spec = concrete composition). "
                 "distinct = distinct case description; non-trivial = concrete call, or symbolic with >= 2 different calls of which at least one is true and one false")
     ok_spec, log = core.coq_make(["Base/Sx.vo", "Eql/PredSpec.vo", "Eql/PredCase.vo"])
     rep.oblige("build:spec", ok_spec, "" if ok_spec else core.first_error(log))
@@ -430,7 +505,9 @@ def run(tier: str, seed: int, replay=None) -> int:
             for p in sorted(cdir.glob("*.json")):
                 if not p.name.startswith("kf_"):
                     descrs.append(json.loads(p.read_text())["case"])
-        descrs += gen_cases(tier, seed) + gen_malformed(tier, seed)
+        descrs += gen_cases(tier, seed) + gen_malformed(tier, seed) + gen_nested(tier, seed)
+    nested = [d for d in descrs if d.get("inner")]
+    descrs = [d for d in descrs if not d.get("inner")]
     cases = [make_case(d) for d in descrs]
     codes = core.coq_codes(PROP, header, "pcase", fn, [(c.term, core.sx(c.impl)) for c in cases], chunk=250)
 
@@ -465,6 +542,35 @@ def run(tier: str, seed: int, replay=None) -> int:
             continue
         bad.append((c, code))
     bad.sort(key=lambda cc: (cc[1] // 100 != 0, len(cc[0].key)))     # smallest case of the proved fragment first
+    # nested calls f(g(x)), Pred(h(x), y): outside the model; implementation vs Spec (the concrete composition)
+    ncases = [Case(term=ncase_term(d), impl=run_impl(d), descr=d, snippet=snippet(d), key=json.dumps(d, sort_keys=True)) for d in nested]
+    ncodes = core.coq_codes(PROP, HEADER_SPEC, "ncase", "case_code_nested", [(c.term, core.sx(c.impl)) for c in ncases],
+                            chunk=250, tag="nest") if ncases else []
+    dist.update({"nested": len(ncases), "nested_inner_result_falsy_somewhere": 0, "nested_under_not": 0, "nested_inner_predicate": 0,
+                 "nested_shares_variable_with_outer": 0})
+    nbad = []
+    for c, code in zip(ncases, ncodes):
+        d = c.descr
+        ok_shape = c.impl[0] == 1 and len(c.impl) == 5
+        inner_vals = {d["inner"]["tbl"][sum((v % 3) * 3 ** j for j, v in enumerate(call)) % len(d["inner"]["tbl"])] for call in c.impl[2]} if ok_shape else set()
+        rep.count(c.key, ok_shape and len(c.impl[3]) > 0)
+        dist["nested_inner_result_falsy_somewhere"] += 0 in inner_vals
+        dist["nested_under_not"] += bool(d.get("neg"))
+        dist["nested_inner_predicate"] += bool(d["inner"]["pred"])
+        ivars = {v for a in d["inner"]["pos"] + [a for _, a in d["inner"]["kw"]] for v in arg_vars(a)}
+        ovars = {v for a in d["pos"] + [a for _, a in d["kw"]] for v in arg_vars(a)} - {NEST}
+        dist["nested_shares_variable_with_outer"] += bool(ivars & ovars)
+        if code != 0:
+            nbad.append((c, code))
+    nbad.sort(key=lambda cc: len(cc[0].key))
+    for c, code in nbad[:3]:
+        try:
+            spec = core.coq_eval_sx(PROP, HEADER_SPEC, [f"spec_nested ({c.term})"])[0]
+        except Exception as e:  # noqa
+            spec = f"<{e}>"
+        rep.violation({"kind": "counterexample", "case": c.descr, "impl": c.impl, "spec": spec, "model": None, "code": 300 + code,
+                       "python": c.snippet, "explanation": "nested call (class 3, outside the model): outcome [1, err, inner calls (compared as a set), "
+                       "outer calls, rows]; the nested argument is written as variable 99 in the outer call; Spec = the concrete composition. " + EXPLAIN})
     rep.extra["distribution"] = dist
     rep.extra["exhaustive_note"] = "call shapes exhaustive up to the stated arity; worlds and expressions sampled"
     step = max(1, len(cases) // 6)
